@@ -24,6 +24,12 @@ type structType struct {
 	fieldInfos []structFieldInfo // 偏移量对应的字段信息内容
 }
 
+// structTypeKey 结构体类型的缓存 key, 同一个结构体不同的 targetTag 解析出来的验证规则不一样
+type structTypeKey struct {
+	ty        reflect.Type
+	targetTag string
+}
+
 // structFieldInfo 结构体字段信息
 type structFieldInfo struct {
 	export     bool   // 是否可导出
@@ -228,7 +234,8 @@ func (v *VStruct) validate(structName string, value reflect.Value, isValidGather
 
 // getCacheStructType 获取缓存中的 reflect.Type
 func (v *VStruct) getCacheStructType(ty reflect.Type) structType {
-	if obj, ok := cacheStructType.Load(ty); ok {
+	key := structTypeKey{ty: ty, targetTag: v.targetTag}
+	if obj, ok := cacheStructType.Load(key); ok {
 		return obj.(structType)
 	}
 
@@ -248,7 +255,7 @@ func (v *VStruct) getCacheStructType(ty reflect.Type) structType {
 		}
 		obj.fieldInfos[fieldNum] = info
 	}
-	cacheStructType.Store(ty, obj)
+	cacheStructType.Store(key, obj)
 	return obj
 }
 
